@@ -60,6 +60,29 @@ sel m19 && run m19 alarm database/__init__.py "            if string[0].islower(
 sel m20 && run m20 alarm database/output/bibtex.py "        self._write_preamble(stream, bib_data.preamble)" "        for _pre in bib_data.preamble_list:
             self._write_preamble(stream, _pre)"
 sel m21 && run m21 alarm database/__init__.py "            fields=self.fields.lower()," "            fields=type(self.fields)((k.lower(), v.lower() if k.lower() == 'crossref' else v) for k, v in self.fields.items()),"
+sel m22 && run m22 alarm database/convert/__init__.py "    parser_options=None,
+    preserve_case=True,
+    **kwargs
+):
+    if parser_options is None:
+        parser_options = {}
+
+    if from_filename == to_filename:
+        raise ConvertError('input and output file can not be the same')
+
+    bib_data = database.parse_file(
+        from_filename,
+        bib_format=from_format, encoding=input_encoding," "    parser_options={},
+    preserve_case=True,
+    **kwargs
+):
+    if from_filename == to_filename:
+        raise ConvertError('input and output file can not be the same')
+
+    parser_options.setdefault('encoding', input_encoding)
+    bib_data = database.parse_file(
+        from_filename,
+        bib_format=from_format,"
 sel h1 && run h1 quiet database/output/bibtex.py "        first = person.get_part_as_text('first')
         middle = person.get_part_as_text('middle')
         prelast = person.get_part_as_text('prelast')
